@@ -703,6 +703,10 @@ func c04(c *Ctx) (*report.Result, error) {
 				}
 				okD := false
 				for _, d := range flow.Defers(cl) {
+					// `defer shutdownChan.Shutdown()` directly
+					if d.Call.IsInvoke() && d.Call.Method.Name() == "Shutdown" && coversAllExits(cl, d) {
+						okD = true
+					}
 					if fn := flow.StaticCallee(&d.Call); fn != nil && fn.Blocks != nil && coversAllExits(cl, d) {
 						for _, call := range flow.Calls(fn) {
 							if call.Common().IsInvoke() && call.Common().Method.Name() == "Shutdown" {
